@@ -332,7 +332,7 @@ func (p *parser) checkAlias(mAlias ast.Alias, typeSensitive bool, start int, cac
 
 				underlyingParamType := ddptypes.UnifyGenericType(typ, paramType, genericTypes)
 
-				if !ddptypes.Equal(typ, underlyingParamType) {
+				if underlyingParamType == nil || !ddptypes.Equal(typ, underlyingParamType) { // nil: the types could not be unified
 					didMatch = false
 				} else if ass, ok := cached_arg.Arg.(*ast.Indexing);                                // string-indexings may not be passed as char-reference
 				paramType.IsReference && ddptypes.Equal(underlyingParamType, ddptypes.BUCHSTABE) && // if the parameter is a char-reference
